@@ -4,6 +4,7 @@ let table : (string * (Model.sexp -> Model.sexp)) list = [
   "c17", Model.c17_check;
   "interp", Model.interp_check;
   "c19", Model.c19_check;
+  "c19b", Model.c19b_check;
   "c18", Model.c18_check;
   "c13", Model.c13_check;
   "c03", Model.c03_check;
